@@ -118,7 +118,12 @@ class Position(NamedTuple):
                 break
 
         if target_line_index == -1:
-            return len(lines) + 1, 1
+            if not lines or lines[-1] != self.text.splitlines()[-1]:
+                # The text is empty or ends with a line break, so the end of
+                # the text is the start of a new line.
+                return len(lines) + 1, 1
+            # The end of the text is the end of an unterminated last line.
+            target_line_index = len(lines) - 1
 
         # 1-based
         line_number = target_line_index + 1
